@@ -363,6 +363,7 @@ class SamplerProp(core.Prop):
             return [seq[rs.draw(len(seq), [float(x) for x in weights] if weights is not None else None)]]
         random.choice, random.choices, random.seed = choice, choices, (lambda a=None: rs.do_seed(a))
         random.Random = stub_random_class(rs)        # generator objects of their own: the same recorded stream
+        o_ns, time.time_ns = time.time_ns, (lambda: ('clock', -1))   # as in the symbolic run: a clock value seeds a stream of its own
         try:
             if len(seeds) == 1:
                 return core.guard(self._run_once, M, shape, inp, seeds[0], False)
@@ -375,6 +376,7 @@ class SamplerProp(core.Prop):
         finally:
             random.choice, random.choices, random.seed = o_choice, o_choices, o_seed
             random.Random = _REAL_RANDOM
+            time.time_ns = o_ns
 
 
 class C16(SamplerProp):
